@@ -4,6 +4,7 @@ import (
 	"fmt"
 	"math/rand"
 	"runtime"
+	"strings"
 	"sync"
 	"sync/atomic"
 
@@ -22,18 +23,28 @@ var c17Fields = []string{"term", "type", "data-flip", "data-trunc", "data-extend
 
 // c17Mutate applies the named single-field mutation. It reports false when the
 // mutation does not apply to this entry (caller picks another).
-func c17Mutate(field string, l *raft.Log, isCP bool) bool {
+func c17Mutate(field string, l *raft.Log, isCP bool, v int64) bool {
+	// v (the case number) selects WHICH bit / byte is altered, so that over the case list
+	// every bit position of the integer fields and positions all over Data / Extensions
+	// are hit: a checksum that drops or folds some bits has a blind spot only there.
+	if v < 0 {
+		v = -v
+	}
 	switch field {
 	case "term":
-		l.Term += 3
+		if v%5 == 0 {
+			l.Term += 3
+		} else {
+			l.Term ^= 1 << uint(v%64)
+		}
 	case "type":
-		l.Type ^= 1
+		l.Type ^= 1 << uint(v%8)
 	case "data-flip":
 		if len(l.Data) < 2 {
 			return false
 		}
 		d := append([]byte{}, l.Data...)
-		d[len(d)-1] ^= 0x10
+		d[int(v/8)%len(d)] ^= 1 << uint(v%8)
 		l.Data = d
 	case "data-trunc":
 		if len(l.Data) < 2 {
@@ -41,23 +52,27 @@ func c17Mutate(field string, l *raft.Log, isCP bool) bool {
 		}
 		l.Data = append([]byte{}, l.Data[:len(l.Data)-1]...)
 	case "data-extend":
-		l.Data = append(append([]byte{}, l.Data...), 'x')
+		l.Data = append(append([]byte{}, l.Data...), []byte{'x', 0}[v%2])
 	case "data-empty":
 		if isCP || len(l.Data) == 0 {
 			return false
 		}
 		l.Data = nil
 	case "ext-add":
-		l.Extensions = append(append([]byte{}, l.Extensions...), 0x7f)
+		l.Extensions = append(append([]byte{}, l.Extensions...), []byte{0x7f, 0}[v%2])
 	case "ext-change":
 		if len(l.Extensions) == 0 {
 			return false
 		}
 		e := append([]byte{}, l.Extensions...)
-		e[len(e)-1] ^= 0x01
+		e[int(v/8)%len(e)] ^= 1 << uint(v%8)
 		l.Extensions = e
 	case "index":
-		l.Index += 1000
+		if v%5 == 0 {
+			l.Index += 1000
+		} else {
+			l.Index ^= 1 << uint(v%64)
+		}
 	default:
 		return false
 	}
@@ -83,7 +98,15 @@ func c17Run(c *evid.Ctx, cs c17Case) {
 	rng := rand.New(rand.NewSource(cs.Seed))
 	cl := vsim.NewCluster(rng, 3)
 	defer cl.Close()
+	refusable := false // set once an in-flight mutation of a checkpoint's Extensions is armed
 	fail := func(err error) {
+		if refusable && strings.Contains(err.Error(), "invalid extension data") {
+			// the follower's middleware refused to store a checkpoint whose verification metadata no
+			// longer parses: the node does not hold the range, so the property's premise is not met
+			// (refusing foreign Extensions on a checkpoint is C18's statement)
+			c.Count("inflight_checkpoint_mutation_refused_by_store", 1)
+			return
+		}
 		c.Violation("C17:store-error", err.Error(), map[string]any{"case": cs, "events": tail(cl.Events, 30)})
 	}
 	// warm-up: a few appends with checkpoints, fully replicated
@@ -146,6 +169,7 @@ func c17Run(c *evid.Ctx, cs c17Case) {
 		return
 	}
 	applied := false
+	refusable = cs.Site == "inflight" && isCP && (cs.Field == "ext-add" || cs.Field == "ext-change")
 	var swapData []byte
 	mut := func(l *raft.Log) {
 		if l.Index == p || (isSwap(cs.Field) && l.Index == p+1) {
@@ -172,7 +196,7 @@ func c17Run(c *evid.Ctx, cs c17Case) {
 				_ = swapData
 				return
 			}
-			if c17Mutate(cs.Field, l, isCP) {
+			if c17Mutate(cs.Field, l, isCP, cs.Seed) {
 				applied = true
 			}
 		}
